@@ -1,55 +1,80 @@
 #!/usr/bin/env python3
-"""sensitivity.py [PROP]: thorough-tier contract sensitivity: apply every catalogued mutant (scratch copy, never /repo) and require
-that the owning property's check rejects it.  Prints WEAK-CONTRACT for survivors; writes /verif/gen/sensitivity.json."""
-import json, os, subprocess, sys, tempfile, shutil
+"""sensitivity.py [PROP] [workers]: thorough-tier contract sensitivity.  Every catalogued one-line mutant (mutants/) is applied to
+a scratch copy (never /repo) and the owning property's quick check must reject it; every behaviour-preserving edit (harmless/)
+must NOT be reported as a violation.  Prints WEAK-CONTRACT for surviving mutants and FALSE-ALARM for harmless edits that alarm;
+both are statements about the checks, never VIOLATIONs of a property.  Writes gen/sensitivity[_PROP].json."""
+import json, os, shutil, subprocess, sys, tempfile
+from concurrent.futures import ThreadPoolExecutor
 V = os.path.dirname(os.path.dirname(os.path.abspath(__file__)))
-cat = json.load(open(os.path.join(V, 'mutants', 'catalogue.json')))
-only = sys.argv[1] if len(sys.argv) > 1 else None
-res = {}
-for name, props in cat.items():
-    if name.startswith('_'):
-        continue
-    patch = os.path.join(V, 'mutants', name + '.diff')
-    for p in props:
+
+
+def one(kind, name, prop, patch, expect):
+    d = tempfile.mkdtemp(prefix='vpmut_')
+    try:
+        subprocess.run(['rsync', '-a', '--exclude', 'target', '--exclude', '.git', '/repo/', d + '/'], check=True)
+        r = subprocess.run(['patch', '-p1', '-s', '-i', patch], cwd=d, capture_output=True, text=True)
+        if r.returncode != 0:
+            return kind, name, prop, 'patch-does-not-apply'
+        q = subprocess.run([sys.executable, os.path.join(V, 'vp', 'check.py'), prop, '--no-evidence', '--tier', 'quick'],
+                           env=dict(os.environ, VP_REPO=d, VP_GEN=d + '_gen', VP_NO_SENSITIVITY='1'), capture_output=True, text=True)
+        if kind == 'mutant':
+            return kind, name, prop, {0: 'SURVIVED', 1: 'killed', 2: 'undecided'}.get(q.returncode, 'rc%d' % q.returncode)
+        ok = q.returncode in expect
+        return kind, name, prop, ('quiet (rc %d)' % q.returncode) if ok else ('FALSE-ALARM rc %d' % q.returncode)
+    finally:
+        shutil.rmtree(d, ignore_errors=True); shutil.rmtree(d + '_gen', ignore_errors=True)
+
+
+def run(only=None, workers=4, quiet=False):
+    jobs = []
+    cat = json.load(open(os.path.join(V, 'mutants', 'catalogue.json')))
+    for name, props in cat.items():
+        if name.startswith('_'):
+            continue
+        for p in props:
+            if only and p != only:
+                continue
+            jobs.append(('mutant', name, p, os.path.join(V, 'mutants', name + '.diff'), None))
+    # the kept seeded changes (seeded/<id>/patch.diff) count as mutants of their property; one is outside the claimed scope
+    import glob
+    for pd in sorted(glob.glob(os.path.join(V, 'seeded', '*', 'patch.diff'))):
+        sid = os.path.basename(os.path.dirname(pd)); p = sid.split('-')[0]
         if only and p != only:
             continue
-        d = tempfile.mkdtemp(prefix='vpmut_')
         try:
-            subprocess.run(['rsync', '-a', '--exclude', 'target', '--exclude', '.git', '/repo/', d + '/'], check=True)
-            r = subprocess.run(['patch', '-p1', '-s', '-i', patch], cwd=d, capture_output=True, text=True)
-            if r.returncode != 0:
-                res['%s/%s' % (name, p)] = 'patch-does-not-apply'
+            if 'NOT DETECTED, by design' in json.load(open(os.path.join(os.path.dirname(pd), 'meta.json'))).get('our_checks', ''):
                 continue
-            q = subprocess.run([sys.executable, os.path.join(V, 'vp', 'check.py'), p, '--no-evidence'], env=dict(os.environ, VP_REPO=d, VP_GEN=d + '_gen'), capture_output=True, text=True)
-            res['%s/%s' % (name, p)] = {0: 'SURVIVED', 1: 'killed', 2: 'undecided'}.get(q.returncode, 'rc%d' % q.returncode)
-            if q.returncode == 0:
-                print('WEAK-CONTRACT: mutant %s is not rejected by the %s check' % (name, p))
-        finally:
-            shutil.rmtree(d, ignore_errors=True); shutil.rmtree(d + '_gen', ignore_errors=True)
-# behaviour-preserving edits: no check may report a VIOLATION on them
-hcat = json.load(open(os.path.join(V, 'harmless', 'catalogue.json'))) if os.path.exists(os.path.join(V, 'harmless', 'catalogue.json')) else {}
-for name, ent in hcat.items():
-    if name.startswith('_'):
-        continue
-    patch = os.path.join(V, 'harmless', name + '.diff')
-    for p in ent['props']:
-        if only and p != only:
+        except Exception:
+            pass
+        jobs.append(('mutant', 'seeded:' + sid, p, pd, None))
+    hp = os.path.join(V, 'harmless', 'catalogue.json')
+    hcat = json.load(open(hp)) if os.path.exists(hp) else {}
+    for name, ent in hcat.items():
+        if name.startswith('_'):
             continue
-        d = tempfile.mkdtemp(prefix='vpharm_')
-        try:
-            subprocess.run(['rsync', '-a', '--exclude', 'target', '--exclude', '.git', '/repo/', d + '/'], check=True)
-            r = subprocess.run(['patch', '-p1', '-s', '-i', patch], cwd=d, capture_output=True, text=True)
-            if r.returncode != 0:
-                res['harmless:%s/%s' % (name, p)] = 'patch-does-not-apply'
+        for p in ent['props']:
+            if only and p != only:
                 continue
-            q = subprocess.run([sys.executable, os.path.join(V, 'vp', 'check.py'), p, '--no-evidence'], env=dict(os.environ, VP_REPO=d, VP_GEN=d + '_gen'), capture_output=True, text=True)
-            ok = q.returncode in ent.get('expect', [0, 2])
-            res['harmless:%s/%s' % (name, p)] = 'quiet (rc %d)' % q.returncode if ok else 'FALSE-ALARM rc %d' % q.returncode
-            if not ok:
-                print('FALSE-ALARM: behaviour-preserving edit %s makes the %s check exit %d' % (name, p, q.returncode))
-        finally:
-            shutil.rmtree(d, ignore_errors=True); shutil.rmtree(d + '_gen', ignore_errors=True)
-os.makedirs(os.path.join(V, 'gen'), exist_ok=True)
-json.dump(res, open(os.path.join(V, 'gen', 'sensitivity%s.json' % ('_' + only if only else '')), 'w'), indent=1)
-k = sum(1 for v in res.values() if v == 'killed')
-print('mutants: %d killed, %d undecided, %d survived, %d other of %d' % (k, sum(1 for v in res.values() if v == 'undecided'), sum(1 for v in res.values() if v == 'SURVIVED'), sum(1 for v in res.values() if v not in ('killed', 'undecided', 'SURVIVED') and not v.startswith('quiet')), len(res)))
+            jobs.append(('harmless', name, p, os.path.join(V, 'harmless', name + '.diff'), ent.get('expect', [0, 2])))
+    res = {}
+    with ThreadPoolExecutor(max_workers=max(1, workers)) as ex:
+        for kind, name, p, verdict in ex.map(lambda j: one(*j), jobs):
+            res['%s%s/%s' % ('harmless:' if kind == 'harmless' else '', name, p)] = verdict
+            if not quiet:
+                if verdict == 'SURVIVED':
+                    print('WEAK-CONTRACT: mutant %s is not rejected by the %s check' % (name, p))
+                if verdict.startswith('FALSE-ALARM'):
+                    print('FALSE-ALARM: behaviour-preserving edit %s makes the %s check report %s' % (name, p, verdict))
+    return res
+
+
+if __name__ == '__main__':
+    only = sys.argv[1] if len(sys.argv) > 1 and sys.argv[1].startswith('C') else None
+    workers = int(next((a for a in sys.argv[1:] if a.isdigit()), '4'))
+    res = run(only, workers)
+    os.makedirs(os.path.join(V, 'gen'), exist_ok=True)
+    json.dump(res, open(os.path.join(V, 'gen', 'sensitivity%s.json' % ('_' + only if only else '')), 'w'), indent=1)
+    vals = list(res.values())
+    print('mutants: %d killed, %d undecided, %d survived; harmless edits: %d quiet, %d false alarms; %d other' % (
+        vals.count('killed'), vals.count('undecided'), vals.count('SURVIVED'), sum(1 for v in vals if v.startswith('quiet')),
+        sum(1 for v in vals if v.startswith('FALSE-ALARM')), sum(1 for v in vals if v == 'patch-does-not-apply' or v.startswith('rc'))))
